@@ -301,3 +301,73 @@ def single_def(fn, name):
     vals = [s.value for s in walk_local(fn) if isinstance(s, ast.Assign) and len(s.targets) == 1
             and isinstance(s.targets[0], ast.Name) and s.targets[0].id == name]
     return vals[0] if len(vals) == 1 else None
+
+
+# -- canonical views of equivalent spellings -----------------------------------------------------
+_FLIP = {ast.Lt: ast.Gt, ast.Gt: ast.Lt, ast.LtE: ast.GtE, ast.GtE: ast.LtE, ast.Eq: ast.Eq, ast.NotEq: ast.NotEq}
+
+
+def _is_constlike(n):
+    return isinstance(n, ast.Constant) or (isinstance(n, ast.UnaryOp) and isinstance(n.operand, ast.Constant))
+
+
+class _Canon(ast.NodeTransformer):
+    """Rewrites a *copy* of an expression/statement into a canonical spelling:
+    `b > a` -> `a < b`, `b >= a` -> `a <= b` (order comparisons always use < / <=), except that a constant operand
+    stays on the right (`x > 0` stays, `0 < x` -> `x > 0`); `==`/`!=` operands sorted by their text (constant last);
+    `T = T op E` -> `T op= E`;  `not (a < b)` is left alone (polarity is the path enumerator's business)."""
+
+    def visit_Compare(self, node):
+        self.generic_visit(node)
+        if len(node.ops) != 1 or type(node.ops[0]) not in _FLIP:
+            return node
+        l, r, op = node.left, node.comparators[0], node.ops[0]
+        flip = False
+        if _is_constlike(l) and not _is_constlike(r):
+            flip = True
+        elif _is_constlike(r):
+            flip = False
+        elif isinstance(op, (ast.Gt, ast.GtE)):
+            flip = True
+        elif isinstance(op, (ast.Eq, ast.NotEq)):
+            flip = src(l) > src(r)
+        if flip:
+            return ast.Compare(left=r, ops=[_FLIP[type(op)]()], comparators=[l])
+        return node
+
+    def visit_Assign(self, node):
+        self.generic_visit(node)
+        if len(node.targets) == 1 and isinstance(node.value, ast.BinOp) and isinstance(node.targets[0], (ast.Name, ast.Attribute, ast.Subscript)) \
+                and src(node.targets[0]) == src(node.value.left):
+            return ast.AugAssign(target=node.targets[0], op=node.value.op, value=node.value.right)
+        return node
+
+
+def norm_src(node, mapping=None):
+    """Canonical source text of a node (see _Canon), optionally with local names substituted (see src_with)."""
+    if node is None:
+        return None
+    c = _Canon().visit(_clone(node, mapping or {}))
+    return src(ast.fix_missing_locations(c))
+
+
+def same(node, text, mapping=None):
+    """Does *node* mean the same as the source *text* up to the canonical spellings of norm_src?
+    (`same(test, "ind < 0")` is true for `ind < 0` and for `0 > ind`.)"""
+    try:
+        want = ast.parse(text).body[0]
+    except SyntaxError:
+        return False
+    if isinstance(want, ast.Expr) and not isinstance(node, ast.stmt):
+        want = want.value
+    return norm_src(node, mapping) == norm_src(want)
+
+
+def as_augassign(st):
+    """(target, op, value) when *st* is `T op= E` or the equivalent `T = T op E`; else None."""
+    if isinstance(st, ast.AugAssign):
+        return st.target, st.op, st.value
+    if isinstance(st, ast.Assign) and len(st.targets) == 1 and isinstance(st.value, ast.BinOp) \
+            and isinstance(st.targets[0], (ast.Name, ast.Attribute, ast.Subscript)) and src(st.targets[0]) == src(st.value.left):
+        return st.targets[0], st.value.op, st.value.right
+    return None
